@@ -39,6 +39,8 @@ type c39Case struct {
 	// Limit is the namespace MaxSqlResultSize: -1 unlimited, 1..50 rows per backend result.
 	Limit int `json:"limit"`
 	// Mode: "unshard" (table without rule, default slice), "single" (sharded table, key equality: one sub-table),
+	// "slice" (sharded table, key IN (a, b) picking the first two sub-tables, which live on the SAME slice: the
+	// route is confined to one slice but covers two physical tables; needs Locations[0] >= 2),
 	// "multi" (sharded table, no key condition: every sub-table).
 	Mode string `json:"mode"`
 	// Locations is the number of sub-tables per slice of the mod rule (len = number of slices, 1..3).
@@ -52,7 +54,12 @@ type c39Case struct {
 	Binary bool `json:"binary"`
 	// InTx runs the statement (and the follow-up) inside BEGIN ... so that the backend connection is kept by the session.
 	InTx bool `json:"in_tx"`
-	// Key is the shard key value used by mode "single".
+	// Tail: 0 nothing, 1 ORDER BY id, 2 GROUP BY id, 3 LIMIT 100000, 4 ORDER BY id LIMIT 100000, 5 ORDER BY id DESC
+	// (sharded modes only; none of them removes a row: ids are unique and the LIMIT is above every total).
+	Tail int `json:"tail,omitempty"`
+	// Between adds "where id between 0 and 100000000" to mode "multi" (a range cannot prune a mod rule).
+	Between bool `json:"between,omitempty"`
+	// Key is the shard key value used by mode "single" (and the multiplier of the keys of mode "slice").
 	Key  int  `json:"key"`
 	Salt byte `json:"salt"`
 }
@@ -135,13 +142,22 @@ func genSmall(t *rapid.T) c39Case {
 	} else {
 		c.Limit = rapid.IntRange(1, 50).Draw(t, "limit")
 	}
-	c.Mode = rapid.SampledFrom([]string{"unshard", "single", "multi", "multi"}).Draw(t, "mode")
+	c.Mode = rapid.SampledFrom([]string{"unshard", "single", "multi", "multi", "slice"}).Draw(t, "mode")
 	ns := rapid.IntRange(2, 3).Draw(t, "slices")
 	if c.Mode == "unshard" {
 		ns = rapid.IntRange(1, 2).Draw(t, "slices_u")
 	}
 	for i := 0; i < ns; i++ {
 		c.Locations = append(c.Locations, rapid.SampledFrom([]int{1, 1, 1, 2}).Draw(t, "loc"))
+	}
+	if c.Mode == "slice" {
+		c.Locations[0] = 2 // two physical tables on slice-0
+	}
+	if c.Mode != "unshard" && rapid.Bool().Draw(t, "has_tail") {
+		c.Tail = rapid.IntRange(1, 5).Draw(t, "tail")
+	}
+	if c.Mode == "multi" {
+		c.Between = rapid.IntRange(0, 3).Draw(t, "between") == 0
 	}
 	nt := 0
 	for _, l := range c.Locations {
@@ -249,6 +265,9 @@ var caseSeq int64
 
 var reSub = regexp.MustCompile("(?i)tbl_s_(\\d{4})")
 
+// transportRe: error texts that speak of the proxy's path to its backends, not of the result
+var transportRe = regexp.MustCompile(`(?i)time ?out|timed out|deadline|connection|broken pipe|\bEOF\b|reset by peer|create resource|bad conn|invalid conn|i/o|\bpool\b|no alive|backendconn|get conn|unavailable|refused`)
+
 type backendLedger struct {
 	mu       sync.Mutex
 	executed map[int]int // table -> how many times its statement was answered
@@ -331,7 +350,11 @@ func (c c39Case) install(p *proxyfix.Proxy, led *backendLedger) (cl *proxyfix.Cl
 			}}}
 		}
 	}
-	ns := proxyfix.BaseNamespace(nsName, cl.SliceConfigs(specs), []*models.User{{UserName: user, Password: "pw", RWFlag: 2, RWSplit: 0}})
+	slices := cl.SliceConfigs(specs)
+	for _, sl := range slices {
+		sl.HandshakeTimeout = 30000 // ms; the default of 500 ms is easily missed on a loaded machine
+	}
+	ns := proxyfix.BaseNamespace(nsName, slices, []*models.User{{UserName: user, Password: "pw", RWFlag: 2, RWSplit: 0}})
 	ns.MaxSqlResultSize = c.Limit
 	if c.Mode != "unshard" {
 		var slices []string
@@ -412,23 +435,44 @@ func decodeBinaryRow(cols []rawclient.Column, p []byte) ([][]byte, error) {
 // ---- the property ----
 
 func (c c39Case) statement() (sql string, params []rawclient.Param) {
+	i64 := func(v int) rawclient.Param {
+		b := make([]byte, 8)
+		binary.LittleEndian.PutUint64(b, uint64(v))
+		return rawclient.Param{Type: 8, Value: b}
+	}
+	tail := ""
+	if c.Mode != "unshard" {
+		tail = []string{"", " order by id", " group by id", " limit 100000", " order by id limit 100000", " order by id desc"}[c.Tail%6]
+	}
 	switch c.Mode {
 	case "unshard":
 		return "select id, payload, note from tbl_u", nil
 	case "single":
 		if c.Binary {
-			v := make([]byte, 8)
-			binary.LittleEndian.PutUint64(v, uint64(c.Key))
-			return "select id, payload, note from tbl_s where id = ?", []rawclient.Param{{Type: 8, Value: v}}
+			return "select id, payload, note from tbl_s where id = ?" + tail, []rawclient.Param{i64(c.Key)}
 		}
-		return fmt.Sprintf("select id, payload, note from tbl_s where id = %d", c.Key), nil
+		return fmt.Sprintf("select id, payload, note from tbl_s where id = %d", c.Key) + tail, nil
+	case "slice":
+		// keys of sub-table 0 and sub-table 1, both on slice-0
+		k0 := (c.Key % 50) * c.tables()
+		k1 := k0 + 1
+		if c.Binary {
+			return "select id, payload, note from tbl_s where id in (?, ?)" + tail, []rawclient.Param{i64(k0), i64(k1)}
+		}
+		return fmt.Sprintf("select id, payload, note from tbl_s where id in (%d, %d)", k0, k1) + tail, nil
 	}
-	return "select id, payload, note from tbl_s", nil
+	if c.Between {
+		if c.Binary {
+			return "select id, payload, note from tbl_s where id between ? and ?" + tail, []rawclient.Param{i64(0), i64(100000000)}
+		}
+		return "select id, payload, note from tbl_s where id between 0 and 100000000" + tail, nil
+	}
+	return "select id, payload, note from tbl_s" + tail, nil
 }
 
 func checkC39(c c39Case) (o pbt.Outcome) {
 	nt := c.tables()
-	if nt < 1 || len(c.Rows) < nt || c.RowBytes < 0 || c.RowBytes > 4<<20 {
+	if nt < 1 || len(c.Rows) < nt || c.RowBytes < 0 || c.RowBytes > 4<<20 || (c.Mode == "slice" && (len(c.Locations) == 0 || c.Locations[0] < 2)) {
 		o.Skip = "malformed case"
 		return
 	}
@@ -451,7 +495,7 @@ func checkC39(c c39Case) (o pbt.Outcome) {
 		return
 	}
 	defer cli.Close()
-	cli.Timeout = 60 * time.Second
+	cli.Timeout = 300 * time.Second
 
 	if c.InTx {
 		if r, err := cli.Exec("begin"); err != nil || r.Err != nil {
@@ -491,7 +535,6 @@ func checkC39(c c39Case) (o pbt.Outcome) {
 	led.mu.Unlock()
 	var tabs []int
 	expectRows, maxPer, totalBytes := 0, 0, 0
-	exactLimit := false
 	for t, n := range executed {
 		tabs = append(tabs, t)
 		if n > 1 {
@@ -500,9 +543,6 @@ func checkC39(c c39Case) (o pbt.Outcome) {
 		expectRows += c.Rows[t]
 		if c.Rows[t] > maxPer {
 			maxPer = c.Rows[t]
-		}
-		if c.Rows[t] == c.Limit {
-			exactLimit = true
 		}
 		for i := 0; i < c.Rows[t]; i++ {
 			totalBytes += c.payloadLen(t, i) + 12
@@ -514,6 +554,12 @@ func checkC39(c c39Case) (o pbt.Outcome) {
 	o.Labels = append(o.Labels, "mode_"+c.Mode, map[bool]string{true: "proto_binary", false: "proto_text"}[c.Binary])
 	if c.InTx {
 		o.Labels = append(o.Labels, "in_transaction")
+	}
+	if c.Mode != "unshard" && c.Tail%6 != 0 {
+		o.Labels = append(o.Labels, []string{"", "tail_order_by", "tail_group_by", "tail_limit", "tail_order_by_limit", "tail_order_by_desc"}[c.Tail%6])
+	}
+	if c.Mode == "slice" && len(tabs) == 2 {
+		o.Labels = append(o.Labels, "one_slice_two_tables_routed")
 	}
 	nearLimit := false
 	if c.Limit > 0 {
@@ -552,7 +598,7 @@ func checkC39(c c39Case) (o pbt.Outcome) {
 	mustErr := c.Limit > 0 && maxPer > c.Limit
 	mustDeliver := c.Limit > 0 && maxPer <= c.Limit
 
-	desc := fmt.Sprintf("mode=%s binary=%v limit=%d tables=%v rows=%v row_bytes=%d in_tx=%v", c.Mode, c.Binary, c.Limit, tabs, c.Rows, c.RowBytes, c.InTx)
+	desc := fmt.Sprintf("mode=%s binary=%v limit=%d tables=%v rows=%v row_bytes=%d in_tx=%v locations=%v sql=%q", c.Mode, c.Binary, c.Limit, tabs, c.Rows, c.RowBytes, c.InTx, c.Locations, sql)
 
 	gotErr := ""
 	switch {
@@ -572,10 +618,10 @@ func checkC39(c c39Case) (o pbt.Outcome) {
 		if mustDeliver && len(tabs) > 0 {
 			detail := fmt.Sprintf("no backend result has more rows than the limit (max %d <= limit %d) but the client received an error instead of the %d rows: %s [%s]",
 				maxPer, c.Limit, expectRows, gotErr, desc)
-			// C39-F1: readResultRows rejects a result whose row count REACHES the limit
-			if exactLimit && strings.Contains(gotErr, "sql result set size exceeded") && ioErr == nil {
-				o.Known, o.KnownWhat = "C39-F1", detail
-				return
+			if ioErr != nil || (transportRe.MatchString(gotErr) && !strings.Contains(gotErr, "sql result set size exceeded")) {
+				// the proxy could not reach a backend in time (pool wait, dial/handshake, socket) or the client's own
+				// read deadline passed: happens on a loaded machine, says nothing about the row limit
+				return pbt.Outcome{Skip: "inconclusive: transport or timeout error instead of a result"}
 			}
 			o.Violation = detail
 			return
@@ -682,11 +728,6 @@ func checkC39(c c39Case) (o pbt.Outcome) {
 	}
 	if mustErr {
 		detail := fmt.Sprintf("a backend result has %d rows, more than the limit %d, but the client received all %d rows and no error [%s]", maxPer, c.Limit, len(got), desc)
-		// C39-F3: the streaming continuation counts rows per 16 MiB chunk, so a result over the limit passes
-		if bigPer && c.Mode == "unshard" {
-			o.Known, o.KnownWhat = "C39-F3", detail
-			return
-		}
 		o.Violation = detail
 		return
 	}
@@ -695,7 +736,7 @@ func checkC39(c c39Case) (o pbt.Outcome) {
 
 // followUp: the next statement on the same session must get exactly its own one-row result or an error.
 func (c c39Case) followUp(cli *rawclient.Conn, led *backendLedger, o pbt.Outcome, desc string) pbt.Outcome {
-	cli.Timeout = 20 * time.Second
+	cli.Timeout = 90 * time.Second
 	r, err := cli.Exec(followSQL)
 	if err != nil {
 		// the session was closed by the proxy: an error for the client, acceptable
@@ -732,7 +773,7 @@ func (c c39Case) followUpAfterKnown(cli *rawclient.Conn, led *backendLedger, o p
 
 func TestC39Small(t *testing.T) {
 	pbt.Run(t, pbt.Spec{ID: "C39", Sub: "small", Quick: 300, Thorough: 3000,
-		Rule:  "namespace row limit 1-50 or unlimited; per backend result row counts limit-1/limit/limit+1 and arbitrary; rows of 0 B-70 KB; unsharded, single-shard and multi-shard (2-3 slices, 1-2 sub-tables each, mod rule) SELECT; COM_QUERY and prepare/execute; optionally inside a transaction; non-trivial = some backend result within one row of the limit",
+		Rule:  "namespace row limit 1-50 or unlimited; per backend result row counts limit-1/limit/limit+1 and arbitrary; rows of 0 B-70 KB; unsharded, single-shard, one-slice-two-tables (id IN picking both tables of slice-0) and multi-shard (2-3 slices, 1-2 sub-tables each, mod rule; optionally id BETWEEN) SELECT, optionally with ORDER BY / GROUP BY / LIMIT that remove no row; COM_QUERY and prepare/execute; optionally inside a transaction; non-trivial = some backend result within one row of the limit",
 		Floor: 0.6}, genSmall, checkC39)
 }
 
